@@ -189,8 +189,10 @@ impl PartialEq for Variable {
             | (Variable::Int(value1), Variable::Int(value2))
             | (Variable::Float(value1), Variable::Float(value2))
             | (Variable::String(value1), Variable::String(value2))
-            | (Variable::Tuple(value1), Variable::Tuple(value2))
-            | (Variable::Struct(value1), Variable::Struct(value2)) => value1 == value2,
+            | (Variable::Tuple(value1), Variable::Tuple(value2)) => value1 == value2,
+            // field by field: an `Arc` of an `Eq` type is equal to itself without a look at the
+            // fields, but a struct that holds a NaN is not equal to itself
+            (Variable::Struct(value1), Variable::Struct(value2)) => **value1 == **value2,
             (Variable::Function(value1), Variable::Function(value2))
             | (Variable::Mut(value1), Variable::Mut(value2)) => Arc::ptr_eq(value1, value2),
             (Variable::Void, Variable::Void) => true,
